@@ -28,6 +28,9 @@ _EXTRA = {
     'HIS': (('Water', 'Ethanol', 'Octanol', 'Tetradecanol', 'N2', 'Glucose'), {'N2': 'g', 'Glucose': 's'}),
     'WO':  (('Water', 'Ethanol', 'Acetone', 'Hexane'), {}),
     'LL':  (('Water', '1-Butanol', 'Octanol', 'EthylAcetate', 'Hexane', 'Ethanol'), {}),
+    # package ORDER is a configuration axis: phase-locked members first and in the middle, volatile ones after them
+    'OVLE': (('N2', 'Water', 'Glucose', 'Ethanol', 'Propanol'), {'N2': 'g', 'Glucose': 's'}),
+    'ORD':  (('N2', 'Methanol', 'Glucose', 'Water', 'Propanol'), {'N2': 'g', 'Glucose': 's'}),
 }
 
 _SPECIAL = {}
@@ -44,9 +47,20 @@ def _salt_package():
         _SPECIAL['SALT'] = t.Thermo(t.Chemicals(chems))
     return _SPECIAL['SALT']
 
+def _pr_package(base):
+    """the chemicals of `base` with Dortmund activity coefficients and Peng-Robinson vapour fugacity coefficients
+    (Thermo(..., Phi=PRFugacityCoefficients) -- a documented configuration option; builds offline)"""
+    key = base + 'pr'
+    if key not in _SPECIAL:
+        t = fx.tmo()
+        _SPECIAL[key] = t.Thermo(fx.thermo(base).chemicals, Phi=t.equilibrium.PRFugacityCoefficients)
+    return _SPECIAL[key]
+
 def package(name):
-    """'VLE', 'ALC', 'HC', 'A', ... ; a trailing 'i' selects the ideal variant of the same chemicals ('ALCi')."""
+    """'VLE', 'ALC', 'HC', 'A', ... ; a trailing 'i' selects the ideal variant of the same chemicals ('ALCi'), a trailing 'pr'
+    the variant with Peng-Robinson vapour fugacity coefficients ('HCpr')."""
     if name == 'SALT': return _salt_package()
+    if name.endswith('pr') and name[:-2] in fx.PACKAGES: return _pr_package(name[:-2])
     ideal = name.endswith('i') and name[:-1] in (set(fx.PACKAGES) | set(_EXTRA))
     base = name[:-1] if ideal else name
     if base in _EXTRA:
@@ -56,12 +70,14 @@ def package(name):
 
 def locked_of(name):
     if name == 'SALT': return {'NaCl': 'l', 'N2': 'g'}
+    if name.endswith('pr') and name[:-2] in fx.PACKAGES: name = name[:-2]
     base = name[:-1] if name.endswith('i') and name[:-1] in (set(fx.PACKAGES) | set(_EXTRA)) else name
     if base in _EXTRA: return dict(_EXTRA[base][1])
     return dict(fx.LOCKED.get(base, {}))
 
 def package_ids(name):
     if name == 'SALT': return ('Water', 'Ethanol', 'Propanol', 'NaCl', 'N2')
+    if name.endswith('pr') and name[:-2] in fx.PACKAGES: name = name[:-2]
     base = name[:-1] if name.endswith('i') and name[:-1] in (set(fx.PACKAGES) | set(_EXTRA)) else name
     return _EXTRA[base][0] if base in _EXTRA else fx.PACKAGES[base]
 
